@@ -37,7 +37,7 @@ def cases(tier, seed):
         for ts in range(4):
             for rs in ((0, 1, 2) if tier == "quick" else (0, 1, 2, 3, 4, 5, 6, 7)):
                 for upd in (True, False):
-                    for fl in (1e-10, 0.5, 2.0):
+                    for fl in (1e-10, 0.5, 2.0, 0.0):
                         for bag in (False, True):
                             if not upd and fl != 1e-10:
                                 continue
@@ -79,7 +79,7 @@ def _project_case(case, c, s, o):
     C, D = ubm.means.shape
     um = np.asarray(ubm.means, float)
     t = case["dim_t"]
-    m = IVectorMachine(ubm, dim_t=t)
+    m = IVectorMachine(ubm, dim_t=t, update_sigma=bool((case["tp"] + t) % 2))  # the projection must not depend on this training switch
     m.dim_c, m.dim_d = C, D
     T = c11._pattern((C, D, t), case["tp"], s) + 0.25 * s * (np.arange(t) == 0)
     sig = (np.abs(c11._pattern((C, D), case["tp"] + 1, 1.0)) + 0.25) * s * s
@@ -170,6 +170,9 @@ def _train_case(case, c, s, o):
     stats = [allst[:3], allst[:5] + [allst[6]], allst[1:7], [allst[0], allst[0], allst[3], allst[2], allst[6]]][ts]
     if case["bag"] and (case["rs"] + ts) % 2 == 0:
         stats = (stats * 5)[:13]  # 13 partitions: odd counts at several levels of any tree reduction
+    if case["floor"] == 0.0:
+        stats = copy.deepcopy(stats)
+        stats[0].sum_pxx = np.asarray(stats[0].sum_pxx, float) * 0.25  # second moments not tied to the first ones: raw covariance estimates can be negative
     if case.get("tiny"):
         stats = copy.deepcopy(stats)
         for st in stats:
@@ -197,7 +200,9 @@ def _train_case(case, c, s, o):
     rose = False
     any_floor = False
     scT = 1.0
-    for k in range(1, case["K"] + 1):
+    # with a floor of exactly 0 a covariance estimate can legitimately become 0, after which nothing is defined any more:
+    # only the first iteration is observed there (the floor itself must still hold)
+    for k in range(1, (1 if case["floor"] == 0.0 else case["K"]) + 1):
         Tk, sk = fit(k)
         c.check(Tk.shape == (C, D, t) and sk.shape == (C, D), "shapes", f"T{Tk.shape} sigma{sk.shape}", tags)
         c.check(bool(np.all(np.isfinite(Tk)) and np.all(np.isfinite(sk))), "finite", f"non-finite T/sigma after {k} iterations", tags)
